@@ -449,6 +449,9 @@ func runReal(c *lib.Ctx, e *env, shard, nshards int) {
 	if !c.Quick() {
 		steps = maxEntry
 	}
+	if shard == nshards-1 {
+		e.checkBig()
+	}
 	idx := 0
 	for _, fillLen := range []int{minLine, 8 * 1024, maxEntry - 2} {
 		for _, target := range []int{querylog.VerifBufferSize, 2 * querylog.VerifBufferSize} {
@@ -514,7 +517,12 @@ func replay(c *lib.Ctx, raw json.RawMessage) string {
 		}
 	}
 	e := &env{c: c, dir: c.TmpDir}
-	if strings.HasPrefix(fs.Check, "hist:") {
+	if strings.HasPrefix(fs.Check, "big") {
+		if scaled {
+			return "this case belongs to the real build"
+		}
+		e.checkBig()
+	} else if strings.HasPrefix(fs.Check, "hist:") {
 		e.checkHist(fs, 3)
 	} else if fs.TwoFiles {
 		e.checkTwo(fs)
